@@ -19,9 +19,14 @@ def enum_ob(name, ok, where='', **meta):
 
 class Rec(SymVal):
     "an object with recorded integer counters and given attributes"
+    CLS = None          # the real class the record stands for: private helpers it defines are followed from source
     def __init__(s, **attrs): s.attrs = dict(attrs)
     def sym_getattr(s, it, name):
         if name in s.attrs: return s.attrs[name]
+        if s.CLS is not None:
+            from pyvc.interp import private_helper
+            ok, v = private_helper(it, s.CLS, name, s)
+            if ok: return v
         raise Outside(f'attribute {name}')
     def sym_setattr(s, it, name, v): s.attrs[name] = v
     def sym_truth(s, it): return True
@@ -53,6 +58,7 @@ def events_obligations(ctx, prefix):
                             return 'a truthy result the emitter must ignore'
                     ls = [L(i) for i in range(k)]
                     class LS(Rec):
+                        CLS = E.Listeners
                         def sym_iter(s, it): return list(ls)
                         def sym_getattr(s, it, n):
                             if n == 'discard': return Contract(lambda it, x: discarded.append(x), 'linqset.discard')
@@ -77,6 +83,7 @@ def events_obligations(ctx, prefix):
         seen = []
         lst = Rec(emit=Contract(lambda it, *a, **k: (seen.append((a, k)), 3)[1], 'Listeners.emit'))
         class EL(Rec):
+            CLS = E.EventsListeners
             def sym_getitem(s, it, ev):
                 if ev == 'EV': return lst
                 raise PyExc(KeyError, (ev,))
@@ -110,7 +117,8 @@ def events_obligations(ctx, prefix):
             w2 = World()
             w2.contract(E.Listener, lambda it, cb, once=False: (made.append((cb, once)), ('listener', cb, once))[1], name='Listener(cb, once)')
             ext = []
-            class EL2(SymVal):
+            class EL2(Rec):
+                CLS = E.EventsListeners
                 def sym_getitem(s, it, ev):
                     if ev == 'EV': return Rec(extend=Contract(lambda it, xs: ext.extend(it.iterate(xs)), 'linqset.extend'))
                     raise PyExc(KeyError, (ev,))
